@@ -135,6 +135,10 @@ def setup_recursive_safe_function(
                     else f'_load_{cls_name}_{tp_name}_{tp.name}'
                 )
 
+            # Note: two different types can share a `__name__`
+            if not is_generic and _fn_name in recursion_guard.values():
+                _fn_name = f'{_fn_name}{len(recursion_guard)}'
+
             recursion_guard[cls] = _fn_name
 
             # Retrieve the main FunctionBuilder
